@@ -499,7 +499,9 @@ impl Report {
         });
         let ev_dir = format!("{VERIF_DIR}/evidence");
         let _ = std::fs::create_dir_all(&ev_dir);
-        let ev_path = format!("{ev_dir}/{}.json", self.property);
+        // CAPY_VERIF_EVIDENCE_SUFFIX: a second engine of the same property (C07's program-level half) merges this file
+        let suffix = std::env::var("CAPY_VERIF_EVIDENCE_SUFFIX").unwrap_or_default();
+        let ev_path = format!("{ev_dir}/{}{suffix}.json", self.property);
         if let Err(e) = std::fs::write(&ev_path, serde_json::to_string_pretty(&evidence).unwrap())
         {
             eprintln!("cannot write evidence {ev_path}: {e}");
